@@ -229,7 +229,10 @@ def check_unscaled(ctx, obj, rows, pre, k, M, keep=None):
     for j in range(t):
         col = column(rows, j)
         nn = nonnan(col)
-        mu = col_oracle(nn)["mu"] if nn else 0.0
+        oc = col_oracle(nn) if nn else None
+        # the location the object holds is the COMPUTED mean: |location| <= |exact mean| + mean_tol (a column whose exact
+        # mean is 0 gets a location of order eps * max|x|, and unscale(0) is then off by eps * |location|)
+        mu = (abs(oc["mu"]) + mean_tol(oc)) if nn else 0.0
         mref = max(abs(mu), M[j]) if M is not None else abs(mu)
         for i in (range(n) if keep is None else keep):
             x, got = col[i], float(u[i, j])
@@ -304,7 +307,7 @@ def check_summaries(ctx, obj, rows, pre, k, stale=False, opname="", M=None, unst
             ctx.label("summary_skipped_nan_trait")
             continue
         o = col_oracle(col)
-        mref = abs(o["mu"]) if M is None else max(abs(o["mu"]), M[j])
+        mref = (abs(o["mu"]) + mean_tol(o)) if M is None else max(abs(o["mu"]) + mean_tol(o), M[j])
         drift = 0.0 if M is None else rt_tol(o["A"], mref, k)
         tr = lambda x: rt_tol(x, mref, k)   # noqa: E731
         ctx.check(abs(float(S["tmax"][j]) - o["max"]) <= tr(o["max"]), pre + "tmax",
